@@ -153,10 +153,16 @@ func (u *Upstream) Close(ctx context.Context, opts ...UpstreamCloseOption) error
 	}
 	u.writersMu.Unlock()
 	if idle != nil {
+		// bounded like the wait for acks below: a writer may be blocked for as long as the stream
+		// is waiting for its connection to come back
+		timeout := time.NewTimer(u.closeTimeout)
 		select {
 		case <-idle:
 		case <-ctx.Done():
+		case <-u.ctx.Done():
+		case <-timeout.C:
 		}
+		timeout.Stop()
 	}
 	if beforeStatus != streamStatusResuming {
 		if err := u.waitToSendAllDataPointsAndReceiveAllAck(ctx); err != nil {
